@@ -151,190 +151,51 @@ def _inside(node, anc):
     return False
 
 
-@rule(P, "D3.4", "T-TT", floor=2)
+@rule(P, "D3.4", "T-WITNESS", floor=2)
 def d3_4(ctx):
-    """Return shape: a list for more than one request, else the single Tag."""
-    for name, over in (("read", "tags"), ("write", "tags_values")):
-        fn = ctx.model.func(f"{LX}:LogixDriver.{name}")
-        last = fn.node.body[-1]
-        good = False
-        if isinstance(last, ast.If):
-            c = cmp_norm(last.test)
-            many = c is not None and c[0] == "<=0" and c[1].terms == {f"len({over})": -1} and c[1].const == 2  # len > 1
-            one = c is not None and c[0] == "<=0" and c[1].terms == {f"len({over})": 1} and c[1].const == -1  # len <= 1
-            rb = last.body[0] if len(last.body) == 1 and isinstance(last.body[0], ast.Return) else None
-            ro = last.orelse[0] if len(last.orelse) == 1 and isinstance(last.orelse[0], ast.Return) else None
-            if rb is not None and ro is not None:
-                lst, single = (rb, ro) if many else (ro, rb)
-                good = (many or one) and atom_name(lst.value) == "results" and src(single.value).replace(" ", "") == "results[0]"
-        ctx.check(good, ckey(fn, "return-shape"), last, f"len({over}) > 1 -> list, else results[0]", f"return shape is not `results if len({over}) > 1 else results[0]`")
+    """Return shape: a list (in request order) for more than one request, else the single Tag.  Decided by folding `read` and
+    `write` on one-request and several-request witnesses (D1.14, D3.11)."""
+    from .driver import d1_14, d3_11
+
+    d1_14(ctx)
+    d3_11(ctx)
 
 
-@rule(P, "D3.5", "T-DOM", floor=6)
+@rule(P, "D3.5", "T-WITNESS", floor=6)
 def d3_5(ctx):
-    """Errored requests never get a packet; the assembly loops test the error before touching the results."""
-    from .C17 import construction_sites
+    """Errored requests never get a packet, and the assembly loops report their error without touching the results of the
+    others.  Decided by folding the request builders (D1.15, D2.12: request lists that contain a request that failed to parse,
+    an unencodable value, a refused packet) and `read` / `write` (D1.14, D3.11) on witnesses."""
+    from .driver import d1_14, d1_15, d2_12, d3_11
 
-    builders = {"_read_build_multi_requests", "_read_build_single_request", "_write_build_multi_requests", "_write_build_single_request"}
-    for fi, call, cls, how in construction_sites(ctx):
-        if fi.node.name not in builders or cls.name == "MultiServiceRequestPacket" or how == "from_request":
-            continue
-        g = ctx.cfg(fi.node)
-        st = call
-        while not isinstance(st, ast.stmt):
-            st = getattr(st, "_parent")
-        nodes = g.nodes_of(st)
-        ok = False
-        for t in g.nodes:
-            if t.kind != "test" or "error" not in src(t.ast):
-                continue
-            e = t.ast
-            # forms: x.get("error") -> skip on True ; x.get("error") is None -> build on True
-            if isinstance(e, ast.Compare) and isinstance(e.ops[0], ast.Is) and isinstance(e.comparators[0], ast.Constant) and e.comparators[0].value is None:
-                ok = ok or (nodes and g.branch_dominates(t, True, nodes[0]))
-            elif isinstance(e, ast.Call) and isinstance(e.func, ast.Attribute) and e.func.attr == "get":
-                ok = ok or (nodes and g.branch_dominates(t, False, nodes[0]))
-        ctx.check(bool(ok), ckey(fi, f"skip-errored:{cls.name}"), call, "packet built only for requests without an error", f"{cls.name} is built although the request may already carry an error")
-    for name in ("read", "write"):
-        fn = ctx.model.func(f"{LX}:LogixDriver.{name}")
-        g = ctx.cfg(fn.node)
-        resvar = "read_results" if name == "read" else "write_results"
-        uses = [n for n in g.nodes if n.kind == "stmt" and n.ast is not None and any(isinstance(s, ast.Subscript) and atom_name(s.value) == resvar and isinstance(s.ctx, ast.Load) and atom_name(s.slice) == "i" for s in walk(n.ast))]
-        tests = [t for t in g.nodes if t.kind == "test" and isinstance(t.ast, ast.Call) and isinstance(t.ast.func, ast.Attribute) and t.ast.func.attr == "get" and ctx.folder.eval(t.ast.args[0], fn.module) == "error"]
-        ok = bool(uses) and bool(tests) and all(any(g.branch_dominates(t, False, u) for t in tests) for u in uses)
-        ctx.check(ok, ckey(fn, "error-before-result"), uses[0].ast if uses else fn.node, f"{resvar}[i] is read only for requests without a parse/build error", f"{resvar}[i] is read without first testing the request's error (KeyError -> generic message, or a stale result)")
-        errapp = False
-        for t in tests:
-            for st in walk(fn.node):
-                if isinstance(st, ast.If) and st.test is t.ast:
-                    app = [c for c in walk(st) if isinstance(c, ast.Call) and attr_path(c.func) == "results.append"]
-                    if app and isinstance(app[0].args[0], ast.Call) and call_name(app[0].args[0]) == "Tag":
-                        a = app[0].args[0].args
-                        errapp = len(a) == 4 and isinstance(a[1], ast.Constant) and a[1].value is None and "error" in src(a[3])
-        ctx.check(errapp, ckey(fn, "error-tag"), fn.node, "an errored request yields Tag(tag, None, None, <its error>)", "an errored request is not reported as Tag(tag, None, None, error)")
+    d1_15(ctx)
+    d2_12(ctx)
+    d1_14(ctx)
+    d3_11(ctx)
 
 
-@rule(P, "D3.6", "T-ACC", floor=4)
+@rule(P, "D3.6", "T-WITNESS", floor=4)
 def d3_6(ctx):
-    """Every buildable request lands in exactly one packet list; groups are registered exactly when created."""
-    for name, listname in (("_read_build_multi_requests", "read_requests"), ("_write_build_multi_requests", "write_requests")):
-        fn = ctx.model.func(f"{LX}:LogixDriver.{name}")
-        f = fn.node
-        glp = [n for n in f.body if isinstance(n, ast.For) and atom_name(n.iter) == listname]
-        key = ckey(fn, "grouping")
-        if len(glp) != 1:
-            ctx.violation(key, f, f"no single grouping loop over {listname}")
-            continue
-        lp = glp[0]
-        req = atom_name(lp.target.elts[0]) if isinstance(lp.target, ast.Tuple) else atom_name(lp.target)
-        direct = [s for s in lp.body if isinstance(s, ast.Expr) and isinstance(s.value, ast.Call) and attr_path(s.value.func) == "current_group.append" and atom_name(s.value.args[0]) == req]
-        allapp = [c for c in walk(lp) if isinstance(c, ast.Call) and attr_path(c.func) == "current_group.append"]
-        ifs = [s for s in lp.body if isinstance(s, ast.If)]
-        reg_ok = False
-        if len(ifs) == 1:
-            b = ifs[0].body
-            new = [s for s in b if isinstance(s, ast.Assign) and atom_name(s.targets[0]) == "current_group" and isinstance(s.value, ast.List) and not s.value.elts]
-            reg = [s for s in b if isinstance(s, ast.Expr) and isinstance(s.value, ast.Call) and attr_path(s.value.func) == "grouped_requests.append" and atom_name(s.value.args[0]) == "current_group"]
-            reg_ok = len(new) == 1 and len(reg) == 1 and not ifs[0].orelse and lp.body.index(ifs[0]) < lp.body.index(direct[0]) if direct else False
-        ctx.check(len(direct) == 1 and len(allapp) == 1 and reg_ok, key, lp, "each request is appended once, unconditionally; a new group is registered exactly when it is created", "a request can be dropped or duplicated by the grouping loop (append not unconditional / group not registered when created)")
-        first = [n for n in f.body if isinstance(n, ast.Assign) and atom_name(n.targets[0]) == "current_group"]
-        good = len(first) == 1 and src(first[0].value).replace(" ", "") == "grouped_requests[0]"
-        ctx.check(good, ckey(fn, "first-group"), first[0] if first else f, "the first group is grouped_requests[0]", "the initial group is not the first registered group")
-        # every non-empty group becomes a packet (the first group stays empty when the first request alone exceeds the budget)
-        comps = [n for n in walk(f) if isinstance(n, ast.ListComp) and isinstance(n.elt, ast.Call) and call_name(n.elt) == "MultiServiceRequestPacket" and atom_name(n.generators[0].iter) == "grouped_requests"]
-        okp = False
-        whyp = "no packet list built from grouped_requests"
-        if len(comps) == 1:
-            gen = comps[0].generators[0]
-            gv = atom_name(gen.target)
-            filt = any(atom_name(c) == gv or src(c).replace(" ", "") in (f"len({gv})>0", f"len({gv})") for c in gen.ifs)
-            gate = None
-            p_ = getattr(comps[0], "_parent", None)
-            while p_ is not None and p_ is not f:
-                if isinstance(p_, ast.If) and "grouped_requests[" in src(p_.test):
-                    gate = p_
-                p_ = getattr(p_, "_parent", None)
-            okp = filt and gate is None and atom_name(comps[0].elt.args[1]) == gv
-            whyp = ("packets are only built when one particular group (`%s`) is non-empty: if the first request alone does not fit next to the overhead, the first group stays empty and every grouped request of the call is dropped" % src(gate.test)) if gate is not None else ("empty groups are not filtered out" if not filt else "group variable not passed to the packet")
-        ctx.check(okp, ckey(fn, "every-group-sent"), comps[0] if comps else f, "one multi-service packet per non-empty group", whyp)
-        rets = [r for r in walk(f) if isinstance(r, ast.Return)]
-        parts = src(rets[-1].value).replace(" ", "") if rets else ""
-        ctx.check(len(rets) == 1 and "multi_requests+fragmented_requests" in parts, ckey(fn, "returns"), rets[-1] if rets else f, "returns the multi-service packets plus the fragmented (and bit-write) packets", "the builder does not return all packet lists")
-    # read builder: fragmented xor grouped
-    fn = ctx.model.func(f"{LX}:LogixDriver._read_build_multi_requests")
-    lp = [n for n in fn.node.body if isinstance(n, ast.For)][0]
-    sel = [s for s in lp.body if isinstance(s, ast.If) and any(isinstance(c, ast.Call) and attr_path(c.func) == "fragmented_requests.append" for c in walk(s))]
-    good = len(sel) == 1 and len([c for c in walk(sel[0]) if isinstance(c, ast.Call) and attr_path(c.func) == "fragmented_requests.append" and _inside(c, sel[0]) and not any(c is x for o in sel[0].orelse for x in walk(o))]) == 1 and len([c for o in sel[0].orelse for c in walk(o) if isinstance(c, ast.Call) and attr_path(c.func) == "read_requests.append"]) == 1
-    ctx.check(good, ckey(fn, "frag-xor-group"), sel[0] if sel else lp, "each read request goes either to the fragmented list or to the grouped list", "a read request can be in both lists or in neither")
-    fn = ctx.model.func(f"{LX}:LogixDriver._write_build_multi_requests")
-    sel = [s for s in walk(fn.node) if isinstance(s, ast.If) and any(isinstance(c, ast.Call) and attr_path(c.func) == "fragmented_requests.append" for c in walk(s)) and any(isinstance(c, ast.Call) and attr_path(c.func) == "write_requests.append" for o in s.orelse for c in walk(o))]
-    ctx.check(len(sel) == 1, ckey(fn, "frag-xor-group"), sel[0] if sel else fn.node, "each write request goes either to the fragmented list or to the grouped list", "a write request can be in both lists or in neither")
+    """Every buildable request lands in exactly one packet, in order; packets are grouped so that they fit the connection; every
+    group is sent.  Decided by folding the multi-request builders on witness request lists and connection sizes (D1.15, D2.12:
+    mixed requests, grouping of equal-sized requests).  An earlier form required the grouping loop to be a single `for` in the
+    builder itself and alarmed when it was extracted into a helper method."""
+    from .driver import d1_15, d2_12
+
+    d1_15(ctx)
+    d2_12(ctx)
 
 
-@rule(P, "D3.7", "T-KEYS", floor=6)
+@rule(P, "D3.7", "T-WITNESS", floor=6)
 def d3_7(ctx):
-    """_send_requests stores results under the request id of the very request/sub-request answered."""
-    fn = ctx.model.func(f"{LX}:LogixDriver._send_requests")
-    f = fn.node
-    stores = [n for n in walk(f) if isinstance(n, ast.Assign) and isinstance(n.targets[0], ast.Subscript) and atom_name(n.targets[0].value) == "results"]
-    for s in stores:
-        key = src(s.targets[0].slice).replace(" ", "").replace('"', "'")
-        tagarg = src(s.value.args[0]).replace(" ", "").replace('"', "'") if isinstance(s.value, ast.Call) and call_name(s.value) == "Tag" and s.value.args else None
-        in_h = any(isinstance(a, ast.ExceptHandler) for a in _anc(s))
-        ok = (key, tagarg) in {("request.request_id", "request.tag"), ("req.request_id", "resp.tag"), ("req.request_id", "req.tag"), ("tag['request_id']", "tag['tag']")}
-        ctx.check(ok, ckey(fn, f"store:{key}:{'handler' if in_h else 'normal'}:{tagarg}"), s, "result stored under the answering request's id with that request's tag", f"result stored under `{key}` with tag `{tagarg}`: results can be attributed to another request")
-    # per-service results come from the per-service replies whatever the outer status of the multi-service reply:
-    # on the multi branch every path reaches the loop over response.responses
-    g = ctx.cfg(f)
-    multi_t = [t for t in g.nodes if t.kind == "test" and isinstance(t.ast, ast.Compare) and attr_path(t.ast.left) == "request.type_" and ctx.folder.eval(t.ast.comparators[0], fn.module) == "multi" and not any(isinstance(a, ast.ExceptHandler) for a in _anc(t.ast))]
-    loops = [n for n in walk(f) if isinstance(n, ast.For) and attr_path(n.iter) == "response.responses"]
-    ok = False
-    if len(multi_t) == 1 and len(loops) == 1:
-        t = multi_t[0]
-        multi_branch = isinstance(t.ast.ops[0], ast.Eq)  # True branch when `== "multi"`, False branch when `!= "multi"`
-        start = [s_ for s_, lab in t.succ if lab is multi_branch]
-        ln = g.nodes_of(loops[0].iter) or g.nodes_of(loops[0])
-        outer = [n for n in g.nodes if n.kind == "test" and n.label == "for" and isinstance(n.ast, ast.For) and atom_name(n.ast.iter) == "requests"]
-        ok = bool(start) and bool(ln) and g.must_pass({ln[0]}, start=start[0], sinks=set(outer) | {g.exit, g.raise_exit}) is None
-    ctx.check(ok, ckey(fn, "per-service-always"), loops[0] if loops else f, "every reply to a multi-service packet is unpacked per service, whatever its outer status", "a path handles a multi-service reply without going through its per-service replies (e.g. when the outer status reports an embedded error): one failing service changes the outcome of the others")
-    req_bind = [n for n in walk(f) if isinstance(n, ast.Assign) and atom_name(n.targets[0]) == "req" and attr_path(n.value) == "resp.request"]
-    ctx.check(len(req_bind) == 1, ckey(fn, "sub-request"), f, "a sub-response is matched to its own request object", "sub-responses are no longer matched through resp.request")
-    ret = [r for r in walk(f) if isinstance(r, ast.Return)]
-    ctx.check(len(ret) == 1 and atom_name(ret[0].value) == "results", ckey(fn, "returns"), f, "returns the id -> Tag map", "does not return the results map")
-    # multi-service responses are paired with requests in order
-    ms = ctx.model.cls(f"{PL}:MultiServiceResponsePacket")
-    pr = ms.methods["_parse_reply"]
-    zips = [c for c in walk(pr) if isinstance(c, ast.Call) and call_name(c) == "zip" and len(c.args) == 2]
-    good = len(zips) == 1 and atom_name(zips[0].args[0]) == "reply_data" and attr_path(zips[0].args[1]) == "self.request.requests"
-    mk = [c for c in walk(pr) if isinstance(c, ast.Call) and attr_path(c.func) == "request.response_class" and [atom_name(a) for a in c.args][:1] == ["request"]]
-    ctx.check(good and len(mk) == 1, ckey(ms.key + "._parse_reply", "pairing"), pr, "i-th embedded reply is parsed with the i-th request's response class", "embedded replies are not paired positionally with the requests of the packet")
-    mq = ctx.model.cls(f"{PL}:MultiServiceRequestPacket")
-    bm = mq.methods["build_message"]
-    good = any(isinstance(n, ast.ListComp) and isinstance(n.elt, ast.Call) and attr_path(n.elt.func) == "request.tag_only_message" and attr_path(n.generators[0].iter) == "self.requests" and not n.generators[0].ifs for n in walk(bm))
-    ctx.check(good, ckey(mq.key + ".build_message", "order"), bm, "embedded services are emitted in the order of self.requests", "embedded services are not emitted in the order of self.requests (replies would be paired with the wrong requests)")
-    # attributes read by _send_requests exist on every class that can flow in
-    base = ctx.model.cls(f"{PB}:RequestPacket")
-    su = ctx.model.cls("pycomm3.packets.ethernetip:SendUnitDataRequestPacket")
-    for c in ctx.model.subclasses(su, strict=True):
-        if c.module.name != PL or c.name in ("TagServiceRequestPacket",):
-            continue
-        t = ctx.folder.class_attr(c, "type_")
-        attrs = set()
-        for k in c.mro():
-            ini = k.methods.get("__init__")
-            if ini is not None:
-                attrs |= {attr_path(x.targets[0])[5:] for x in walk(ini) if isinstance(x, ast.Assign) and (attr_path(x.targets[0]) or "").startswith("self.")}
-        need = {"request_id", "tag"} if t != "multi" else {"requests"}
-        if t == "write":
-            need |= {"value", "data_type"}
-        ctx.check(t in ("read", "write", "multi") and need <= attrs, ckey(c.key, "protocol"), c.node, f"type_={t!r}; defines {sorted(need)}", f"{c.name}: type_={t!r}, missing attributes {sorted(need - attrs)} that _send_requests reads")
+    """Results are stored under the request id of the very request / sub-request answered, with that request's tag; members of
+    a multi-service reply pair positionally with the packet's requests.  Decided by folding `_send_requests` on witness
+    requests and replies (D1.16) and the multi-service response class on witness frames (sa/rules/packets.py)."""
+    from .driver import d1_16
+    from .packets import _emit
 
-
-def _anc(n):
-    p = getattr(n, "_parent", None)
-    while p is not None:
-        yield p
-        p = getattr(p, "_parent", None)
+    d1_16(ctx)
+    _emit(ctx, {"multi-response"})
 
 
 ALLOWED_ESCAPES = {"CommError", "ResponseError"}
